@@ -1,6 +1,7 @@
 package props
 
 import (
+	"math"
 	"fmt"
 	"reflect"
 	"strconv"
@@ -32,7 +33,7 @@ func init() {
 		Level: "exploration",
 		Rule: "E1 bounded-exhaustive enumeration of the kind grammar T ::= scalar | string | [k]T | []T | map[K]T | *T | interface{} | struct{T,…} built with reflect to depth 3 (thorough 4) (every depth-1 type, then W types spread over each level as elements of the next): all 17 scalar kinds (bool, int8..64, int, uint8..64, uint, uintptr, float32/64, complex64/128) at every leaf position of depth-1 composites, a 7-type leaf subset plus 9 types of the previous level for binary structs; arrays of 0 and 2 elements; struct arity 1 and 2; map keys string/int32/uint; " +
 			"values per type from a shape alphabet (slices nil/empty/1/2 elements, maps nil/empty/1/2 entries, pointers nil/non-nil, interfaces nil/scalar/string/pointer/struct, strings \"\",\"a\",\"abc\" and 40 bytes; over leaf types also slices of 9, 70 and 1025 elements and maps of 9, 40 and 1000 entries; pointer values are deliberately REUSED in both elements of arrays and both fields of structs, so shared acyclic pointers occur). Oracle: the generator returns (value, size) and computes the size while building (headers 16/24/8/8/16, 8 for int/uint/uintptr; 64-bit platform asserted). size.Of on every value; Stat(v,d,m) for d in {0,1,3}, m in {0,1,10} and the AvgOf form: the number on the first line equals the expected size. " +
-			"Plus element structs {A [L]T; B S} (L 0..3, T not scalar, S of 1 / 8 / 16 bytes) inside slices, arrays, maps and behind a pointer. Plus WIDE structs (7..257 fields, the last six a string, a []byte, a pointer, an interface, a map and an array; alone, in slices of 1..3, a [2] array and a map). Plus 34 hand-written values (16 of them deep: linked lists of 999..50001 nodes and interface/pointer chains of 1000..10000 boxes) (among them maps whose struct / array / interface keys differ in structural size) of Go types reflect cannot build (unexported and embedded fields, named types, padding, interior pointers of another type into the object being walked - to its first field or element and further in), and a SEQUENCE of 13 values of distinct types that print alike (seven local types all called props.rec, two package-level types both called model.Rec; in pairs also equal in Size and Kind), measured in order by one goroutine, forward then backward: nothing may be carried from one type to a like-named one; and a SEQUENCE on shared objects in which out-of-domain calls (a chan, a func, an unsafe.Pointer behind pointers: Of and Stat panic, the caller recovers) come between measurements of in-domain values that reach the same pointers: a recovered panic must leave nothing behind. Plus structs of 7..257 fields, element structs with array fields of non-scalar elements, and LONG arrays and slices: 21 lengths 0..4096 (around 8, 16, 32, 64, 128, 256) of uint8 / int8 / bool / uint16 / int64 / string elements by value, behind a pointer, as slice elements, as a struct field by value and behind a pointer, as a map value and as the dynamic value of an interface. Plus 13 ACYCLIC values that reach the same memory more than once (the same pointer / map / slice among siblings; prefix, middle and suffix sub-slices of a sibling and of an ANCESTOR slice with the same data pointer; an arena-allocated tree; shared string bytes): every path counts. A case is one (value, function) pair; non-trivial when the type is composite.",
+			"Plus element structs {A [L]T; B S} (L 0..3, T not scalar, S of 1 / 8 / 16 bytes) inside slices, arrays, maps and behind a pointer. Plus WIDE structs (7..257 fields, the last six a string, a []byte, a pointer, an interface, a map and an array; alone, in slices of 1..3, a [2] array and a map). Plus 34 hand-written values (16 of them deep: linked lists of 999..50001 nodes and interface/pointer chains of 1000..10000 boxes) (among them maps whose struct / array / interface keys differ in structural size) of Go types reflect cannot build (unexported and embedded fields, named types, padding, interior pointers of another type into the object being walked - to its first field or element and further in), and a SEQUENCE of 13 values of distinct types that print alike (seven local types all called props.rec, two package-level types both called model.Rec; in pairs also equal in Size and Kind), measured in order by one goroutine, forward then backward: nothing may be carried from one type to a like-named one; and a SEQUENCE on shared objects in which out-of-domain calls (a chan, a func, an unsafe.Pointer behind pointers: Of and Stat panic, the caller recovers) come between measurements of in-domain values that reach the same pointers: a recovered panic must leave nothing behind. Plus structs of 7..257 fields, element structs with array fields of non-scalar elements, and LONG arrays and slices: 21 lengths 0..4096 (around 8, 16, 32, 64, 128, 256) of uint8 / int8 / bool / uint16 / int64 / string elements by value, behind a pointer, as slice elements, as a struct field by value and behind a pointer, as a map value and as the dynamic value of an interface. Plus 13 ACYCLIC values that reach the same memory more than once (the same pointer / map / slice among siblings; prefix, middle and suffix sub-slices of a sibling and of an ANCESTOR slice with the same data pointer; an arena-allocated tree; shared string bytes): every path counts. Plus 10 maps with keys that are not equal to themselves (NaN in float, complex, struct, array and interface keys; two NaN keys in one map): the value of such an entry counts like any other. A case is one (value, function) pair; non-trivial when the type is composite.",
 		Assumptions: []string{
 			"64-bit platform (asserted at start)",
 			"types deeper than D, struct arity > 2 and cyclic values are not generated (cycles are excluded by the statement)",
@@ -490,6 +491,31 @@ func c20Shared() c20Type {
 	// the same string (same bytes) in many places
 	str := "shared-bytes"
 	add([]string{str, str[:6], str[6:], str}, 24+(16+12)+(16+6)+(16+6)+(16+12), "a string, its prefix, suffix and itself again")
+	return t
+}
+
+// c20NaNKeys: maps with keys that are not equal to themselves (NaN floats, alone and inside complex, struct,
+// array and interface keys): such an entry cannot be looked up by its key, only iterated - its value counts
+// like any other.
+func c20NaNKeys() c20Type {
+	t := c20Type{t: reflect.TypeOf(struct{ NaNKey int8 }{}), composite: true}
+	add := func(x interface{}, sz int, d string) {
+		t.vals = append(t.vals, c20Val{reflect.ValueOf(x), sz, d})
+	}
+	nan := math.NaN()
+	add(map[float64]int64{nan: 1}, 8+8+8, "map[float64]int64 with a NaN key")
+	add(map[float64]string{nan: "abcd", 1.5: "xy"}, 8+(8+16+4)+(8+16+2), "map[float64]string with a NaN key and an ordinary one")
+	add(map[float32]int8{float32(nan): 1}, 8+4+1, "map[float32]int8 with a NaN key")
+	add(map[complex128]int16{complex(nan, 0): 2}, 8+16+2, "map[complex128]int16 with a NaN real part")
+	two := map[float64]int32{}
+	two[nan] = 1
+	two[nan] = 2
+	add(two, 8+2*(8+4), "map[float64]int32 with two NaN keys")
+	add(map[struct{ F float64 }]int8{{nan}: 1}, 8+8+1, "struct key with a NaN field")
+	add(map[[2]float64]int8{{nan, 1}: 1}, 8+16+1, "array key with a NaN element")
+	add(map[interface{}]int8{nan: 1}, 8+(16+8)+1, "interface key holding NaN")
+	add([]map[float64][]int64{{nan: {1, 2}}}, 24+8+8+(24+16), "NaN-keyed map of slices inside a slice")
+	add(&map[float64]*int64{nan: new(int64)}, 8+8+8+(8+8), "pointer to a NaN-keyed map of pointers")
 	return t
 }
 
@@ -975,7 +1001,7 @@ func c20Run(c *mc.Ctx) {
 	c.Set("type_depth", D)
 	c.Set("types", len(types))
 	c.Set("types_per_depth", per)
-	types = append(types, c20Handwritten(), c20SameNamed(), c20IfaceSlots(), c20AfterPanic(), c20Wide(), c20ArrayFields(), c20LongSeqs(), c20Shared())
+	types = append(types, c20Handwritten(), c20SameNamed(), c20IfaceSlots(), c20AfterPanic(), c20Wide(), c20ArrayFields(), c20LongSeqs(), c20Shared(), c20NaNKeys())
 	nvals := 0
 	for _, t := range types {
 		nvals += len(t.vals)
@@ -1043,7 +1069,7 @@ func c20Judge(kind string, cs c20Case) (got, want string) {
 		return fmt.Sprintf("Of=%s%d", p, g), "Of=0"
 	}
 	types, _ := c20Types(cs.Depth, cs.Width)
-	types = append(types, c20Handwritten(), c20SameNamed(), c20IfaceSlots(), c20AfterPanic(), c20Wide(), c20ArrayFields(), c20LongSeqs(), c20Shared())
+	types = append(types, c20Handwritten(), c20SameNamed(), c20IfaceSlots(), c20AfterPanic(), c20Wide(), c20ArrayFields(), c20LongSeqs(), c20Shared(), c20NaNKeys())
 	if cs.Path[0] >= len(types) || cs.Path[1] >= len(types[cs.Path[0]].vals) {
 		return "case does not exist in this enumeration", ""
 	}
